@@ -787,6 +787,19 @@ pub fn run_job_in(pool: &rayon::ThreadPool, spec: &RunSpec, user_validate_event:
     })
 }
 
+/// (epoch, sample) -> bits of the per-sample training loss, from the SampleDone events of a run.
+fn sample_losses(events: &[String]) -> std::collections::BTreeMap<(i64, i64), i64> {
+    let mut m = std::collections::BTreeMap::new();
+    for line in events {
+        if let Ok(v) = serde_json::from_str::<Value>(line) {
+            if v["event"] == "SampleDone" {
+                m.insert((v["epoch"].as_i64().unwrap_or(0), v["sample"].as_i64().unwrap_or(-1)), v["loss_bits"].as_i64().unwrap_or(-1));
+            }
+        }
+    }
+    m
+}
+
 /// Recompute every epoch's training loss from the logged per-sample losses and compare with what `learn` returned.
 fn epoch_loss_mismatch(events: &[String], train: &[f32], batch: usize) -> Option<Value> {
     let mut per_epoch: std::collections::BTreeMap<i64, std::collections::BTreeMap<i64, f32>> = Default::default();
@@ -1110,6 +1123,9 @@ pub fn record_threads(seed: u64, tier: &str, trace: &mut Vec<Value>, rep: &mut R
                             if base.weights != res.weights { diffs.push("final weights"); }
                             if base.validate.0.to_bits() != res.validate.0.to_bits() || base.validate.1.to_bits() != res.validate.1.to_bits() { diffs.push("validate()"); }
                             if base.predictions != res.predictions { diffs.push("predict_batch()"); }
+                            // every per-sample training loss as the SampleDone hook logged it (the epoch loss can hide a
+                            // last-bit difference of a few samples behind its own rounding)
+                            if sample_losses(&base.events) != sample_losses(&res.events) { diffs.push("per-sample training losses"); }
                             if !diffs.is_empty() {
                                 rep.mismatch(
                                     "C05",
